@@ -639,6 +639,15 @@ def run_cases(ctx, stream, cases, tapbin, with_tx=True, workers=12):
             keycache[k] = bytes.fromhex(m.group(1)) if m else None
     with ThreadPoolExecutor(max_workers=workers) as ex:
         list(ex.map(lambda c: exec_case(tapbin, c, keycache.get((c.key, tuple(c.scripts))) if with_tx else None), cases))
+    # the transaction tap prints is the transaction it was given — version, inputs, sequences, outputs, lock time — with the witness of the
+    # spent input filled in
+    for c in cases:
+        t_out, txs = (c.side or {}).get("tx"), (c.side or {}).get("txs")
+        if t_out and txs:
+            strip = lambda t: (t[0], [(bytes(i[0]), i[1], bytes(i[2]), i[3]) for i in t[1]], [(o[0], bytes(o[1])) for o in t[2]], t[3])
+            if strip(t_out) != strip(txs[1]):
+                violation(c.line, {"stream": stream + "-tx-preserved", "given": repr(strip(txs[1]))[:400], "printed": repr(strip(t_out))[:400],
+                                   "why": "the transaction tap prints differs from the one it was given in more than the witness"})
     lines = [c.line for c in cases]
     impl = [c.impl for c in cases]
     model = ctx.driver_sharded(lines, "model")
